@@ -423,7 +423,7 @@ fn typed_with_dst<P: PixelTrait, S: ImageView<Pixel = P>>(op: &mut OpSpec, s: Op
             go!(TypedCroppedImageMut::from_ref(&mut parent, pl.l, pl.t, w, h).unwrap())
         }
         DstK::TCropMutNested => {
-            let (ox, oy) = (pl.l.min(1), pl.t.min(1));
+            let (ox, oy) = (pl.l.min(2), pl.t.min(1));
             let parent = TypedImage::<P>::from_pixels_slice(pw, ph, as_pixels_mut::<P>(d.buf.as_mut())).unwrap();
             let outer = TypedCroppedImageMut::new(parent, pl.l - ox, pl.t - oy, pw - (pl.l - ox), ph - (pl.t - oy)).unwrap();
             go!(TypedCroppedImageMut::new(outer, ox, oy, w, h).unwrap())
@@ -470,7 +470,7 @@ pub fn typed_call<P: PixelTrait>(op: &mut OpSpec, sk: SrcK, src: Option<&PhysSrc
             slice_only!(TypedCroppedImage::new(parent, pl.l, pl.t, w, h).unwrap())
         }
         SrcK::TCropNested => {
-            let (ox, oy) = (pl.l.min(1), pl.t.min(1));
+            let (ox, oy) = (pl.l.min(2), pl.t.min(1));
             let parent = TypedImageRef::<P>::new(pw, ph, as_pixels::<P>(s.buf.as_ref())).unwrap();
             let outer = TypedCroppedImage::new(parent, pl.l - ox, pl.t - oy, pw - (pl.l - ox), ph - (pl.t - oy)).unwrap();
             let v = TypedCroppedImage::new(outer, ox, oy, w, h).unwrap();
@@ -479,7 +479,7 @@ pub fn typed_call<P: PixelTrait>(op: &mut OpSpec, sk: SrcK, src: Option<&PhysSrc
                 DstK::TCropMutNested => {
                     // nested -> nested: instantiated once
                     let (dpw, dph, dw, dh, dpl) = (dst.pw, dst.ph, dst.w, dst.h, dst.place);
-                    let (dx, dy) = (dpl.l.min(1), dpl.t.min(1));
+                    let (dx, dy) = (dpl.l.min(2), dpl.t.min(1));
                     let dparent = TypedImage::<P>::from_pixels_slice(dpw, dph, as_pixels_mut::<P>(dst.buf.as_mut())).unwrap();
                     let douter = TypedCroppedImageMut::new(dparent, dpl.l - dx, dpl.t - dy, dpw - (dpl.l - dx), dph - (dpl.t - dy)).unwrap();
                     let mut dd = TypedCroppedImageMut::new(douter, dx, dy, dw, dh).unwrap();
